@@ -379,6 +379,43 @@ func C18(r *eng.Run) {
 	})
 	r.Phase("ladder x general product", t0, nil)
 
+	// powers of ten x integer exponents written in every encoding k*10^e (the shortcut reads the
+	// exponent field of y): results on both sides of the range ends
+	t0 = time.Now()
+	var x10, yenc []ref.Bits
+	for k := ref.MinQ; k <= ref.MaxQ+34; k++ {
+		if r.Thorough() || k%11 == 0 || (k > -70 && k < 70) || k < ref.MinQ+3 || k > ref.MaxQ+30 || (k > ref.MaxQ-3 && k < ref.MaxQ+3) {
+			addTo(&x10, false, big.NewInt(1), k)
+			if k%3 == 0 {
+				addTo(&x10, true, big.NewInt(1), k)
+			}
+			if k > -34 && k < 0 && k%4 == 0 {
+				addTo(&x10, false, ref.Pow10(-k), k+k)
+			}
+		}
+	}
+	for e := 0; e <= 12; e++ {
+		for _, kk := range []int64{1, 2, 3, 4, 6, 7, 9, 10, 11, 25, 30, 61, 62, 100, 611, 612, 617, 618, 6111, 6112, 6144, 6145, 6176, 6177, 61110, 65535, 65536} {
+			addTo(&yenc, false, big.NewInt(kk), e)
+			if kk < 8 || kk == 6111 {
+				addTo(&yenc, true, big.NewInt(kk), e)
+			}
+		}
+	}
+	for e := 13; e <= 40; e += 3 {
+		addTo(&yenc, false, big.NewInt(1), e)
+		addTo(&yenc, false, big.NewInt(3), e)
+	}
+	x10, yenc = uniqBits(x10), uniqBits(yenc)
+	r.Bounds["pow10_bases"] = len(x10)
+	r.Bounds["integer_exponent_encodings"] = len(yenc)
+	r.Par(len(x10), func(w *eng.W, i int) {
+		for _, y := range yenc {
+			checkPow(w, x10[i], y)
+		}
+	})
+	r.Phase("powers of ten x integer exponents in every encoding", t0, nil)
+
 	// exponents that land the power at the thresholds: y = ln(T)/ln(x) rounded to 34 digits +- few ulps
 	t0 = time.Now()
 	c := hp.Get(hpP2)
